@@ -18,9 +18,10 @@ VARIABLES tid,    \* which trace
           l,      \* next event
           bad,    \* set of <<event index, clause name>>
           lastx,  \* lastx[c] : id of the exception object c's last failed attempt raised
-          pend    \* set of <<thread, call>>: failures the engine has not necessarily registered yet
+          pend,   \* set of <<thread, call>>: failures the engine has not necessarily registered yet
+          prem    \* "none" | "yes" | "no": was a call executing when the KeyboardInterrupt arrived (C17's premise)
 
-tvars == <<cfg, svars, tid, l, bad, lastx, pend>>
+tvars == <<cfg, svars, tid, l, bad, lastx, pend, prem>>
 
 Range(s) == {s[i] : i \in DOMAIN s}
 CfgOf(r) ==
@@ -37,10 +38,13 @@ TInit ==
   /\ cfg = CfgOf(Traces[tid])
   /\ InitState
   /\ l = 1 /\ bad = {} /\ lastx = [c \in Range(Traces[tid].calls) |-> -2]
-  /\ pend = {}
+  /\ pend = {} /\ prem = "none"
 
-Note(gs) == bad' = bad \cup {<<l, x>> : x \in Broken(gs)} \cup {<<l, x>> : x \in Broken(InvG)'}
-NoteOnly(x) == bad' = bad \cup {<<l, x>>}
+\* clauses broken after an interrupt that arrived while no call was executing are outside C17's
+\* premise; they are reported under a different name
+Tag(x) == IF prem = "no" THEN "offpremise_" \o x ELSE x
+Note(gs) == bad' = bad \cup {<<l, Tag(x)>> : x \in Broken(gs)} \cup {<<l, Tag(x)>> : x \in Broken(InvG)'}
+NoteOnly(x) == bad' = bad \cup {<<l, Tag(x)>>}
 
 \* The engine registers a failure (error count, stop flag) some time after the call ended and
 \* before the same worker thread does anything else. That step is not observable, so the monitor
@@ -56,7 +60,7 @@ MustRegister ==
 
 TRegister ==
   /\ MustRegister # {}
-  /\ UNCHANGED <<tid, cfg, l, lastx>>
+  /\ UNCHANGED <<tid, cfg, l, lastx, prem>>
   /\ LET p == CHOOSE x \in MustRegister : \A y \in MustRegister : x[2] <= y[2] IN
        /\ RegisterE(p[2]) /\ Note(RegisterG(p[2]))
        /\ pend' = pend \ {p}
@@ -66,6 +70,7 @@ TStep ==
   /\ MustRegister = {}
   /\ l' = l + 1
   /\ UNCHANGED <<tid, cfg>>
+  /\ (Ev[l].e # "interrupt" => prem' = prem)
   /\ LET e == Ev[l]
          n == e.n
      IN
@@ -83,7 +88,10 @@ TStep ==
                  /\ Note(AttemptFailG(n) \o << <<"end_attempt_number", e.a = att[n]>> >>)
                  /\ lastx' = [lastx EXCEPT ![n] = e.x]
             [] e.e = "interrupt" ->
-                 UNCHANGED <<svars, lastx, bad, pend>>
+                 /\ prem' = IF \E c \in Calls : st[c] \in {"run", "between"} THEN "yes" ELSE "no"
+                 /\ UNCHANGED <<svars, lastx, bad, pend>>
+            [] e.e = "spawnerr" ->   \* Thread.start() raised and that error propagated out of run
+                 AbortE /\ Note(AbortG) /\ UNCHANGED <<lastx, pend>>
             [] e.e = "settled" ->
                  InterruptE /\ Note(<< <<"interrupt_once", ~intr>> >>) /\ UNCHANGED <<lastx, pend>>
             [] e.e = "return" ->
@@ -105,7 +113,7 @@ TDone ==
   /\ IF bad = {} THEN TLCSet(1, TLCGet(1) \cup {tid})
                  ELSE \A b \in bad : PrintT(<<"REJ", tid, b[1], b[2]>>)
   /\ l' = l + 1
-  /\ UNCHANGED <<cfg, svars, tid, bad, lastx, pend>>
+  /\ UNCHANGED <<cfg, svars, tid, bad, lastx, pend, prem>>
 
 TNext == TRegister \/ TStep \/ TDone
 TSpec == TInit /\ [][TNext]_tvars
